@@ -56,6 +56,12 @@ func HarnessC16Structure() {
 		return
 	}
 	verif.Reach("terminated")
+	checkStructure(in, toks)
+}
+
+// checkStructure: token texts are non-overlapping substrings of the input in
+// left-to-right order and exactly one EOF-or-error token comes last.
+func checkStructure(in string, toks []lexer.Token) {
 	verif.Assert(len(toks) > 0, "C16/has-terminal")
 	pos := 0
 	for i, t := range toks {
@@ -68,6 +74,48 @@ func HarnessC16Structure() {
 		last := t.Type == lexer.ItemEOF || t.Type == lexer.ItemError
 		verif.Assert(last == (i == len(toks)-1), "C16/one-terminal-last")
 	}
+}
+
+// lexTemplates: concrete text around a hole, so that a few symbolic bytes sit
+// deep inside every state of the lexer (anchors, bounds, node ids, literal
+// values and types, bindings, time and filter-function contexts).
+var lexTemplates = [][2]string{
+	{"\"p\"@[", "]"},
+	{"\"p\"@[", ""},
+	{"\"p\"@[2006-01-02T15:04:05Z", "]"},
+	{"\"p\"@[,", "]"},
+	{"\"p", "\"@[]"},
+	{"\"p\"", "[]"},
+	{"/t<", ">"},
+	{"/t<a", ""},
+	{"/", "<a>"},
+	{"\"", "\"^^type:text"},
+	{"\"1\"^^type:", ""},
+	{"\"1\"^^", "int64"},
+	{"\"1\"", "type:int64"},
+	{"?", " "},
+	{"_:", " "},
+	{"before ", " "},
+	{"before 2006-01-02T15:04:05", ""},
+	{"between ", ";"},
+	{"filter ", "(?p)"},
+	{"filter latest", "?p)"},
+	{"select ?a", "?b"},
+	{"<", ">"},
+	{"having ?a ", " 2006-01-02T15:04:05Z"},
+}
+
+// C16 (a'): structure on templates with a symbolic hole.
+func HarnessC16Template() {
+	tp := lexTemplates[verif.Choice("template", len(lexTemplates))]
+	n := verif.Choice("len", verif.Param("N", 2)+1)
+	in := tp[0] + symInput("hole", n) + tp[1]
+	var toks []lexer.Token
+	if !noPanic("C16/no-panic", func() { toks = lexAll(in, 2) }) {
+		return
+	}
+	verif.Reach("terminated")
+	checkStructure(in, toks)
 }
 
 var keywords = []string{"select", "insert", "delete", "create", "construct", "deconstruct", "drop", "graph", "data", "into", "from",
